@@ -6,6 +6,7 @@ Bounded liveness of one bank machine under a pending refresh request (helper lem
  * `phi_step`   one clock edge with `refresh_req` held: either `refresh_gnt` is up or `phi` goes down by at least one
 -/
 import LitedramVerif.Proofs.BmTiming
+import LitedramVerif.Model.LiveBound
 namespace BmLive
 open Hw BankMachine
 
@@ -153,5 +154,18 @@ theorem phi_step (c : Cfg) (A : Nat) (s : State) (i : In) (w : Nat) (hk : TOk c 
   clear eW eV eG eA eF hk
   cases hf : s.fsm <;> cases hrdy : i.ready <;> cases htc : s.trc.ready <;>
     simp [hf, hrdy, htc, nxt, enter] at * <;> grind
+
+theorem rem_le (t : Option Nat) (tx : TX) (h : TxOk t tx) : rem t tx ≤ remMax t := by
+  cases t with
+  | none => simp [rem, remMax]
+  | some x => simp only [rem, remMax, TxOk] at *; split <;> (try split) <;> omega
+
+theorem phi_le (c : Cfg) (A : Nat) (s : State) (w : Nat) (hk : TOk c s) : phi c A s w ≤ phiMax c A := by
+  have h1 := rem_le _ _ hk.w
+  have h2 := rem_le _ _ hk.a
+  have h3 := rem_le _ _ hk.r
+  have h4 : rem c.tRAS s.tras ≤ remMax c.tRAS + c.tRAS.getD 0 := by omega
+  simp only [phi, phiMax]
+  cases s.fsm <;> simp only [] <;> (try split) <;> omega
 
 end BmLive
